@@ -35,6 +35,8 @@ def _resp_seeds():
 class RespRule(BaseRule):
     """Events of the response's connection hand-back protocol."""
 
+    model_read = False
+
     def __init__(self, fp_raises=()):
         self.fp_raises = fp_raises
         self.viol = []
@@ -81,6 +83,17 @@ class RespRule(BaseRule):
             return outs
         if t in ("getattr", "hasattr", "len", "str", "is_fp_closed", "self._init_decoder", "log.debug", "is_response_to_head"):
             return [ok()]
+        if t == "self.read" and self.model_read:
+            # the body reader as a whole (its own release behaviour is C01-R6): attempted, then returns or fails
+            s = st.copy()
+            s.ts["ev"] = s.ts.get("ev", ()) + ("read-to-eof" if (not node.args and not any(k.arg == "amt" for k in node.keywords)) else "read-partial",)
+            s.log(node, "READ body through the error catcher")
+            outs = [Out("normal", s, AV("unk", sym="data"))]
+            for e in (exc("urllib3.exceptions.ProtocolError"), exc("builtins.OSError"), BASE_TOP):
+                s2 = s.copy()
+                s2.log(node, f"read raises {e.val}")
+                outs.append(Out("raise", s2, e))
+            return outs
         return None
 
 
@@ -162,7 +175,7 @@ def run(ctx):
     ctx.sites(R5, nsites, 5, "stdlib-response read sites")
 
     # ------------------------------------------------------------------ R6
-    R6 = ctx.rule("C01-R6", "_error_catcher: every low-level error from the body becomes a urllib3 HTTPError, the connection is closed before it is released, and it is released at most once; interrupts pass unchanged", "E4 with the @contextmanager inlined around _raw_read's body")
+    R6 = ctx.rule("C01-R6", "_error_catcher: every low-level error from the body becomes a urllib3 HTTPError; on an unclean exit the stdlib response AND the connection are closed before the slot is returned, and it is returned exactly once; interrupts pass unchanged", "E4 with the @contextmanager inlined around _raw_read's body")
     fi = m.method(HR, "_raw_read")
     roots = [exc("socket.timeout"), exc("ssl.SSLError"), exc("http.client.IncompleteRead"), exc("http.client.HTTPException"),
              exc("builtins.OSError"), BASE_TOP]
@@ -195,6 +208,17 @@ def run(ctx):
             ctx.ob(R6, fi.qual, f"fault {short}: connection closed before any release", closed_first,
                    "" if closed_first else f"events {seq}: the connection is not closed (or released first) on an unclean exit", witness=o.st.witness(), node=fi.node)
             ctx.ob(R6, fi.qual, f"fault {short}: at most one release", seq.count("put") <= 1, f"events {seq}", witness=o.st.witness())
+            # the stdlib response itself must be closed: when the server said `Connection: close` (or sent no length) http.client
+            # has already detached the socket from the connection and handed it to the response, so closing the connection
+            # alone leaves the descriptor open and the response never reports closed
+            fpc = "fp_close" in seq
+            ctx.ob(R6, fi.qual, f"fault {short}: the stdlib response is closed", fpc,
+                   "" if fpc else f"events {seq}: only the connection is closed on this unclean exit; a close-delimited response owns the socket itself (http.client passes it over), so the socket stays open and the slot is never returned",
+                   witness=o.st.witness(), node=fi.node)
+            rel = "put" in seq
+            ctx.ob(R6, fi.qual, f"fault {short}: the slot is returned", rel,
+                   "" if rel else f"events {seq}: after an unclean exit nobody returns the slot (drain_conn swallows the error, so urlopen's resend path would lose it for good)",
+                   witness=o.st.witness(), node=fi.node)
     # normal exits: released iff the stdlib response reports closed
     n_norm = 0
     for o in outs:
@@ -224,6 +248,31 @@ def run(ctx):
                 caught |= set(astq.handler_type_names(h))
         ok = to_eof and {"HTTPError", "OSError"} <= caught
         ctx.ob(R7, fi.qual, "drain reads to EOF and swallows only transport/urllib3 errors", ok, f"args={astq.text(c)} caught={sorted(caught)}", node=c)
+    # every path of drain_conn on which the response still holds a connection goes through the reader (whose catcher
+    # returns the slot, R6): a shortcut that skips the read skips the only release there is
+    rule = RespRule()
+    rule.model_read = True
+    seeds = _resp_seeds()
+    seeds[("self", "_connection")] = AV("obj", "conn", truth=True, none=False)
+    seeds[("self", "_pool")] = AV("obj", "pool", truth=True, none=False)
+    outs, it = run_function(m, fi, rule, HR, inline={m.method(HR, "release_conn").qual}, seeds=seeds)
+    ctx.states += it.budget.steps
+    dn = [o for o in outs if o.kind != "raise"]
+    ctx.sites(R7, len(dn), 1, "normal exits of drain_conn")
+    seen_d = set()
+    for o in dn:
+        seq = evs(o)
+        ok = "read-to-eof" in seq or "put" in seq
+        k = (ok, seq)
+        if k in seen_d:
+            continue
+        seen_d.add(k)
+        ctx.ob(R7, fi.qual, f"drain_conn exit with events {seq}: the body reader ran (or the slot was returned directly)", ok,
+               "" if ok else "drain_conn returns without reading although the response still holds its connection: nothing returns the slot (urlopen drops the response after draining)",
+               witness=o.st.witness(), node=fi.node)
+    for o in outs:
+        if o.kind == "raise" and o.val.val not in (BASE_TOP.val,) and "read-to-eof" in evs(o):
+            ctx.ob(R7, fi.qual, f"drain_conn lets {o.val.val} escape", False, "errors while discarding the body must not fail the request that follows", witness=o.st.witness(), node=fi.node)
     fi = m.method(HR, "close")
     rule = RespRule()
     seeds = _resp_seeds()
